@@ -41,10 +41,6 @@ rnd = must_replace(rnd, "func rand() uint64 {\n",
                    "func rand() uint64 {\n\tif simMapRandOn {\n\t\treturn simMapRand\n\t}\n", 1, "rand.go")
 rnd = must_replace(rnd, "func maps_rand() uint64 {\n\treturn rand()\n}",
                    "func maps_rand() uint64 {\n\treturn simMapRand\n}", 1, "rand.go")
-rnd = must_replace(rnd, "func cheaprand() uint32 {\n\tmp := getg().m\n",
-                   "func cheaprand() uint32 {\n\tif simMapRandOn {\n\t\tsimCheapRand += 0xa0761d6478bd642f\n"
-                   "\t\thi, lo := math.Mul64(simCheapRand, simCheapRand^0xe7037ed1a0b428db)\n"
-                   "\t\treturn uint32(hi ^ lo)\n\t}\n\tmp := getg().m\n", 1, "rand.go")
 rnd += """
 
 // simMapRand is what rand()/rand32()/maps_rand() return: map iteration offsets
@@ -52,8 +48,23 @@ rnd += """
 // which the simulator harness sets per run (go:linkname).
 var simMapRand uint64 = 0x5DEECE66D
 
-// simCheapRand is the single state of cheaprand() (select tie-breaks).
+// simCheapRand is the state of simRand32: the generator that orders bubbled
+// timers with equal expiry (time.go) and select poll order inside a bubble
+// (select.go). cheaprand itself is left alone: the scheduler and runtime locks
+// call it at moments that depend on wall-clock timing.
 var simCheapRand uint64 = 0x2545F4914F6CDD1D
+
+//go:nosplit
+func simRand32() uint32 {
+	simCheapRand += 0xa0761d6478bd642f
+	hi, lo := math.Mul64(simCheapRand, simCheapRand^0xe7037ed1a0b428db)
+	return uint32(hi ^ lo)
+}
+
+//go:nosplit
+func simRandN(n uint32) uint32 {
+	return uint32((uint64(simRand32()) * uint64(n)) >> 32)
+}
 
 // simMapRandOn is constant true; it exists so the patched functions keep a
 // branch structure the nosplit checker accepts.
@@ -61,7 +72,34 @@ var simMapRandOn = true
 """
 open(os.path.join(out, "rand.go"), "w").write(rnd)
 
+tm = open(os.path.join(goroot, "src/runtime/time.go")).read()
+tm = must_replace(tm, "\t\t\tt.rand = cheaprand()\n", "\t\t\tt.rand = simRand32()\n", 1, "time.go")
+open(os.path.join(out, "time.go"), "w").write(tm)
+
+sel = open(os.path.join(goroot, "src/runtime/select.go")).read()
+sel = must_replace(sel, "\t\tj := cheaprandn(uint32(norder + 1))\n",
+                   "\t\tvar j uint32\n\t\tif gp.bubble != nil {\n\t\t\tj = simRandN(uint32(norder + 1))\n\t\t} else {\n\t\t\tj = cheaprandn(uint32(norder + 1))\n\t\t}\n", 1, "select.go")
+open(os.path.join(out, "select.go"), "w").write(sel)
+
+sema = open(os.path.join(goroot, "src/runtime/sema.go")).read()
+# sync.Mutex decides "starvation mode" (direct hand-off + yield) from how long a
+# waiter waited in REAL nanoseconds; inside a bubble it must see bubble time.
+sema = must_replace(sema, "func internal_sync_nanotime() int64 {\n\treturn nanotime()\n}",
+                    "func internal_sync_nanotime() int64 {\n\tif gp := getg(); gp.bubble != nil {\n\t\treturn gp.bubble.now\n\t}\n\treturn nanotime()\n}", 1, "sema.go")
+open(os.path.join(out, "sema.go"), "w").write(sema)
+
+proc = open(os.path.join(goroot, "src/runtime/proc.go")).read()
+# sysmon must never force a running goroutine off its P after 10 ms of wall
+# time: under machine load that reorders simultaneously runnable goroutines.
+proc = must_replace(proc, "const forcePreemptNS = 10 * 1000 * 1000 // 10ms",
+                    "const forcePreemptNS = 1 << 60 // simulator: no time-slice preemption", 1, "proc.go")
+open(os.path.join(out, "proc.go"), "w").write(proc)
+
 overlay = {"Replace": {
+    os.path.join(goroot, "src/runtime/proc.go"): os.path.join(out, "proc.go"),
+    os.path.join(goroot, "src/runtime/time.go"): os.path.join(out, "time.go"),
+    os.path.join(goroot, "src/runtime/sema.go"): os.path.join(out, "sema.go"),
+    os.path.join(goroot, "src/runtime/select.go"): os.path.join(out, "select.go"),
     os.path.join(goroot, "src/runtime/alg.go"): os.path.join(out, "alg.go"),
     os.path.join(goroot, "src/runtime/rand.go"): os.path.join(out, "rand.go"),
 }}
